@@ -5,6 +5,7 @@ package main
 // See DESIGN.md Appendix F for the grammar.
 
 import (
+	"go/types"
 	"fmt"
 	"go/scanner"
 	"go/token"
@@ -722,6 +723,24 @@ func (c *Contract) modHeapsApprox(p *Program, f interface{}) map[string]string {
 	if fn == nil {
 		return out
 	}
+	// precise when every clause is a plain path (*p, p.f.g, elems(p.f), entries(p.m)) from a parameter
+	ptypes := map[string]types.Type{}
+	for i, prm := range fn.Params {
+		if i < len(c.Params) {
+			ptypes[c.Params[i]] = prm.Type()
+		}
+	}
+	precise := true
+	pout := map[string]string{}
+	for _, m := range c.Modifies {
+		if !lvHeaps(m.E, ptypes, pout) {
+			precise = false
+			break
+		}
+	}
+	if precise {
+		return pout
+	}
 	// conservative: everything reachable by type from the parameters named in the clauses
 	names := map[string]bool{}
 	for _, m := range c.Modifies {
@@ -756,3 +775,113 @@ func (c *Contract) modHeapsApprox(p *Program, f interface{}) map[string]string {
 
 // ModSet0 is the body-derived modification set ignoring the function's own contract.
 func (p *Program) ModSet0(f interface{}) map[string]string { return map[string]string{} }
+
+// lvHeaps adds the heaps an lvalue clause of a modifies list can touch; false when the clause is not a plain path.
+func lvHeaps(x *CExpr, ptypes map[string]types.Type, out map[string]string) (ok bool) {
+	defer func() {
+		if r := recover(); r != nil {
+			ok = false
+		}
+	}()
+	if x.Kind == "call" && len(x.Args) == 1 {
+		t, _, ok := lvType(x.Args[0], ptypes)
+		if !ok {
+			return false
+		}
+		switch x.Name {
+		case "elems":
+			if sl, isSl := types.Unalias(t).Underlying().(*types.Slice); isSl {
+				n, s := elemHeap(sl.Elem())
+				out[n] = s
+				return true
+			}
+		case "entries":
+			if mt, isM := types.Unalias(t).Underlying().(*types.Map); isM {
+				mp, mv := mapHeapNames(mt)
+				out[mp] = ArraySort(SInt, ArraySort(sortOf(mt.Key()), SBool))
+				out[mv] = ArraySort(SInt, ArraySort(sortOf(mt.Key()), sortOf(mt.Elem())))
+				return true
+			}
+		}
+		return false
+	}
+	_, owner, ok2 := lvType(x, ptypes)
+	if !ok2 || owner == "" {
+		return false
+	}
+	parts := strings.SplitN(owner, "|", 2)
+	out[parts[0]] = parts[1]
+	return true
+}
+
+// lvType: type of a path expression and the heap ("name|sort") holding it ("" for a parameter itself).
+func lvType(x *CExpr, ptypes map[string]types.Type) (types.Type, string, bool) {
+	switch x.Kind {
+	case "ident":
+		t, ok := ptypes[x.Name]
+		return t, "", ok
+	case "unary":
+		if x.Op != "*" {
+			return nil, "", false
+		}
+		t, _, ok := lvType(x.X, ptypes)
+		if !ok {
+			return nil, "", false
+		}
+		pt, isP := types.Unalias(t).Underlying().(*types.Pointer)
+		if !isP {
+			return nil, "", false
+		}
+		n, s := objHeap(pt.Elem())
+		return pt.Elem(), n + "|" + s, true
+	case "sel":
+		t, owner, ok := lvType(x.X, ptypes)
+		if !ok {
+			return nil, "", false
+		}
+		if pt, isP := types.Unalias(t).Underlying().(*types.Pointer); isP {
+			t = pt.Elem()
+			n, s := objHeap(t)
+			owner = n + "|" + s
+		}
+		obj, idx, _ := types.LookupFieldOrMethod(t, true, nil, x.Name)
+		if obj == nil {
+			// unexported field: look it up structurally
+			st, isS := types.Unalias(t).Underlying().(*types.Struct)
+			if !isS {
+				return nil, "", false
+			}
+			for i := 0; i < st.NumFields(); i++ {
+				if st.Field(i).Name() == x.Name {
+					return st.Field(i).Type(), owner, true
+				}
+			}
+			return nil, "", false
+		}
+		fv, isV := obj.(*types.Var)
+		if !isV {
+			return nil, "", false
+		}
+		// promoted through an embedded pointer: not a plain path
+		cur := t
+		for _, i := range idx[:len(idx)-1] {
+			st := types.Unalias(cur).Underlying().(*types.Struct)
+			cur = st.Field(i).Type()
+			if _, isP := types.Unalias(cur).Underlying().(*types.Pointer); isP {
+				return nil, "", false
+			}
+		}
+		return fv.Type(), owner, true
+	case "index":
+		t, _, ok := lvType(x.X, ptypes)
+		if !ok {
+			return nil, "", false
+		}
+		if sl, isSl := types.Unalias(t).Underlying().(*types.Slice); isSl {
+			n, s := elemHeap(sl.Elem())
+			return sl.Elem(), n + "|" + s, true
+		}
+		return nil, "", false
+	}
+	return nil, "", false
+}
